@@ -278,3 +278,20 @@ package keyed
 //@   opt inline-calls = start
 //@   ghost aftercall newRunningRoutine: rlast(ret) := rlast(csold(k.routines[key]))
 //@   loop 1 invariant inv: true
+//
+// The ...All variants run the per-key helper for every key under one lock acquisition.
+//@ func (*Keyed).ResetAllRoutines
+//@   props C06 C07 C13
+//@   opt frame = skip
+//@   requires k != nil
+//@   loop 1 invariant inv: ginvs() && objinv(k)
+//@   loop 1 invariant keepkeys: forall key2: any {k.routines[key2]} :: in(k.routines, key2) == csold(in(k.routines, key2))
+//@   assert unlock 1: keepkeys[C06]: forall key2: any {k.routines[key2]} :: in(k.routines, key2) == csold(in(k.routines, key2))
+//
+//@ func (*Keyed).RestartAllRoutines
+//@   props C06 C07 C13
+//@   opt frame = skip
+//@   requires k != nil
+//@   loop 1 invariant inv: ginvs() && objinv(k)
+//@   loop 1 invariant keepkeys: forall key2: any {k.routines[key2]} :: in(k.routines, key2) == csold(in(k.routines, key2)) && k.routines[key2] == csold(k.routines[key2])
+//@   assert unlock 1: keepkeys[C06]: forall key2: any {k.routines[key2]} :: in(k.routines, key2) == csold(in(k.routines, key2)) && k.routines[key2] == csold(k.routines[key2])
